@@ -91,6 +91,38 @@ def gen_yuv(rng, api, w, side):
     return "yuv " + " ".join("%s=%s" % kv for kv in f.items())
 
 
+def gen_tallcrop(rng, ss, fast, resid, side):
+    """cropping region whose bottom edge y+h has a chosen residue modulo the (scaled) iMCU height, in an
+    image that is not a whole number of iMCU rows high and (mostly) continues below the region"""
+    bits = rng.choice([8, 8, 8, 12])
+    sf = rng.choice(SF) if rng.chance(1, 4) else (1, 1)
+    imcu = max(1, MCUH[ss] * sf[0] // sf[1])          # scaled iMCU height
+    while True:
+        h = rng.range(2 * MCUH[ss] + 1, 4 * MCUH[ss] + 7)
+        if h % MCUH[ss]:
+            break
+    sh = scaled(h, sf)
+    w = rng.range(1, 40)
+    sw = scaled(w, sf)
+    # bottom edge: residue resid modulo imcu, >= 1
+    cands = [b for b in range(1, sh + 1) if b % imcu == resid % imcu]
+    inner = [b for b in cands if b < sh]
+    bottom = rng.choice(inner) if inner and not rng.chance(1, 8) else rng.choice(cands or [sh])
+    ch = rng.range(1, bottom)
+    cy = bottom - ch
+    pf = rng.choice([0, 1, 2, 3, 4, 5, 6, 7, 8, 9, 10])
+    f = dict(api="dec", bits=bits, w=w, h=h, ss=ss, pf=pf, pad=rng.choice(PADS), bu=rng.below(2), num=sf[0], den=sf[1],
+             cx=0, cy=cy, cw=(0 if rng.chance(1, 2) else sw), ch=ch, side=side, ll=0, fast=fast)
+    return "pk " + " ".join("%s=%s" % kv for kv in f.items())
+
+
+def gen_rs(rng, ss, fast, maxl, side):
+    sf = rng.choice(SF) if rng.chance(1, 4) else (1, 1)
+    f = dict(w=rng.range(1, 48), h=rng.choice([17, 31, 33, 35, 50, 70]), ss=ss, pf=rng.choice([0, 2, 6, 7, 9]),
+             fast=fast, max=maxl, num=sf[0], den=sf[1], side=side)
+    return "rs " + " ".join("%s=%s" % kv for kv in f.items())
+
+
 def gen_cases(ctx):
     rng = ctx.rng
     cases = []
@@ -109,6 +141,18 @@ def gen_cases(ctx):
                     cases.append(gen_pk(rng, api, w, rng.below(12), side, bits=rng.choice([8, 12]), ll=1))
                 for api in ("d2p", "d2u", "encp", "encu", "decp", "decu", "cfp", "cfu"):
                     cases.append(gen_yuv(rng, api, w, side))
+    # rows: cropping regions ending at every residue of the iMCU height (v = 2: 4:2:0, 4:4:0; v = 4: 4:4:1),
+    # fancy and plain upsampling; jpeg_read_scanlines with max_lines 1..5 (and a few larger) over whole images
+    for rep in range(ctx.n(2, 12)):
+        for ss in (2, 4, 6, 1, 0):
+            for fast in (0, 1):
+                for resid in range(MCUH[ss]):
+                    cases.append(gen_tallcrop(rng, ss, fast, resid, rng.below(2)))
+        for ss in range(7):
+            for fast in (0, 1):
+                for maxl in (1, 2, 3, 4, 5, rng.range(6, 20)):
+                    for side in (0, 1):
+                        cases.append(gen_rs(rng, ss, fast, maxl, side))
     # the SIMD kernels themselves, every width, both guard sides
     for isa in ("sse2", "avx2"):
         for ps in (3, 4):
@@ -145,6 +189,8 @@ def documented_rows(line):
     kind = line.split()[0]
     api = k.get("api", "")
     out = {}
+    if kind == "rs":
+        return out
     if kind == "kern":
         ps = int(k["k"][-1])
         out[0] = [(0, 1, g("n") * ps, g("n") * ps)]
@@ -247,13 +293,17 @@ def describe(line, level):
     kind = line.split()[0]
     if kind == "kern":
         return "SIMD kernel %s/%s, %s columns, guard side %s" % (k.get("k"), k.get("fn"), k.get("n"), "high" if k.get("side") == "1" else "low")
+    if kind == "rs":
+        return "jpeg_read_scanlines(max_lines=%s) loop, %sx%s subsamp=%s pixelFormat=%s do_fancy_upsampling=%s scale=%s/%s guard=%s simd=%s" % (
+            k.get("max"), k.get("w"), k.get("h"), k.get("ss"), k.get("pf"), "0" if k.get("fast") == "1" else "1",
+            k.get("num", "1"), k.get("den", "1"), "high" if k.get("side") == "1" else "low", level)
     names = {"cmp": "tj3Compress%s" % k.get("bits", "8"), "dec": "tj3Decompress%s" % k.get("bits", "8"),
              "d2p": "tj3DecompressToYUVPlanes8", "d2u": "tj3DecompressToYUV8", "encp": "tj3EncodeYUVPlanes8",
              "encu": "tj3EncodeYUV8", "decp": "tj3DecodeYUVPlanes8", "decu": "tj3DecodeYUV8",
              "cfp": "tj3CompressFromYUVPlanes8", "cfu": "tj3CompressFromYUV8"}
-    return "%s width=%s height=%s pixelFormat=%s subsamp=%s pitch=w*ps%s bottomUp=%s scale=%s/%s crop=(%s,%s,%s,%s) strides+=(%s,%s,%s) align=%s guard=%s simd=%s" % (
+    return "%s width=%s height=%s pixelFormat=%s subsamp=%s pitch=w*ps%s bottomUp=%s fastUpsample=%s scale=%s/%s crop=(%s,%s,%s,%s) strides+=(%s,%s,%s) align=%s guard=%s simd=%s" % (
         names.get(k.get("api"), k.get("api")), k.get("w"), k.get("h"), k.get("pf"), k.get("ss"),
-        ("+" + k.get("pad", "0")) if int(k.get("pad", 0)) >= 0 else " (pitch=0)", k.get("bu", "0"),
+        ("+" + k.get("pad", "0")) if int(k.get("pad", 0)) >= 0 else " (pitch=0)", k.get("bu", "0"), k.get("fast", "0"),
         k.get("num", "1"), k.get("den", "1"), k.get("cx", 0), k.get("cy", 0), k.get("cw", 0), k.get("ch", 0),
         k.get("s0", 0), k.get("s1", 0), k.get("s2", 0), k.get("align", 1),
         "high" if k.get("side") == "1" else "low", level)
@@ -265,6 +315,12 @@ def judge(ctx, line, level, impl):
     k = kvs(line)
     sigbase = "%s:%s" % (kind, k.get("api", k.get("k", "")) + ("/" + k["fn"] if "fn" in k else ""))
     rep = {"case": line, "level": level, "impl": impl, "config": describe(line, level)}
+    if impl.startswith("over"):
+        o = kvs("x " + impl[5:])
+        ctx.violation("jpeg_read_scanlines(max_lines=%s) called at scanline %s returned %s and wrote through scanlines[%s], a row it was not given: %s"
+                      % (o.get("max"), o.get("at"), o.get("ret"), o.get("row"), describe(line, level)), rep,
+                      signature="rows-beyond-max_lines:%s:fancy=%s" % (level, "0" if k.get("fast") == "1" else "1"))
+        return True
     if impl.startswith("segv buf=-1"):
         # the fault is NOT on one of the guard pages: the library crashed on its own memory
         crop = "y" if any(int(k.get(x, 0)) for x in ("cx", "cy", "cw", "ch")) else "n"
